@@ -99,4 +99,79 @@ example : (structFieldInfo [.scalar 1 1, .scalar 8 8, .struct [.scalar 1 1, .sca
     .scalar 4 4, .slice, .scalar 4 4, .scalar 1 1]).map (fun i => (i.fields.map (·.offset), i.size, i.align))
     = some ([0, 8, 16, 20, 24, 28, 36, 40], 48, 8) := by decide
 
+/-! ### the generated read / write / flatten code (tool/src/js/gen.rs, converter.rs) -/
+
+/-- **Where the generated JS looks for an option's flag.** `readOption(wasm, ptr, N, …)` reads the flag byte at
+    `ptr + N`, and the generator passes `N = size of the payload`.  In the `#[repr(C)]` layout of
+    `DiplomatOption<T>` = `{ union { T }, bool }` the flag's offset is exactly that size (for any payload whose
+    size is a multiple of its alignment, as every laid-out type's is), and the whole option is `size + align`. -/
+theorem option_flag_offset (size align : Nat) (sc : SC) (ha : 0 < align) (hm : size % align = 0) :
+    ((fieldInfoOf [(size, align, sc), (1, 1, .scalars 1)]).fields.map (·.offset)) = [0, size]
+    ∧ (fieldInfoOf [(size, align, sc), (1, 1, .scalars 1)]).size = size + align := by
+  have h1 : padTo 0 align = 0 := by simp [padTo]
+  have h2 : padTo size 1 = 0 := by simp [padTo, Nat.mod_one]
+  have hmax : max (max 0 align) 1 = align := by omega
+  constructor
+  · simp [fieldInfoOf, stepField, h1, h2, hmax, setLastPadding]
+    split <;> simp [setLastPadding]
+  · simp only [fieldInfoOf, List.isEmpty_cons, Bool.false_eq_true, ↓reduceIte, List.foldl_cons, List.foldl_nil, stepField, h1, h2,
+      Nat.add_zero, Nat.zero_add, hmax]
+    have hne : (size + 1) % align ≠ 0 ∨ align = 1 := by
+      by_cases h : align = 1
+      · exact Or.inr h
+      · left
+        have : (size + 1) % align = 1 % align := by rw [Nat.add_mod, hm]; simp
+        rw [this, Nat.mod_eq_of_lt (by omega)]; omega
+    rcases hne with hne | h1a
+    · have hpad : padTo (size + 1) align = align - 1 := by
+        unfold padTo
+        have : (size + 1) % align = 1 := by
+          rw [Nat.add_mod, hm]; simp
+          exact Nat.mod_eq_of_lt (by
+            by_cases h : align = 1
+            · subst h; simp [Nat.mod_one] at hne
+            · omega)
+        rw [this]
+        exact Nat.mod_eq_of_lt (by omega)
+      simp [hne, hpad]; omega
+    · subst h1a
+      simp [Nat.mod_one, padTo]
+
+/-- **When a nested struct is flattened with its padding.** The generator forces padding for a field exactly when
+    the field is a struct with two transitive scalars inside a struct with three or more; it lets the caller
+    decide exactly when both have two; everything else is flattened as it is (`docs/wasm_abi_quirks.md`:
+    an aggregate of more than two scalars is passed "padded direct", including the padding of nested pairs). -/
+theorem force_padding_iff (f w : SC) (isStruct : Bool) :
+    (forcePadding f w isStruct = .force ↔ isStruct = true ∧ f = .scalars 2 ∧ ∃ n, w = .scalars n ∧ 3 ≤ n)
+    ∧ (forcePadding f w isStruct = .passThrough ↔ isStruct = true ∧ f = .scalars 2 ∧ w = .scalars 2) := by
+  have h3 : atLeast3 w = true ↔ ∃ n, w = .scalars n ∧ 3 ≤ n := by
+    cases w <;> simp [atLeast3]
+  have h22 : w = .scalars 2 → atLeast3 w = false := by rintro rfl; rfl
+  unfold forcePadding
+  by_cases c1 : f = .zst ∨ f = .scalars 1
+  · rcases c1 with rfl | rfl <;> simp
+  · by_cases c2 : isStruct = false
+    · simp [c1, c2]
+    · have hs : isStruct = true := by cases isStruct <;> simp_all
+      by_cases c3 : f = .scalars 2 ∧ w = .scalars 2
+      · obtain ⟨rfl, rfl⟩ := c3
+        simp [hs]
+      · by_cases c4 : f = .scalars 2 ∧ atLeast3 w = true
+        · obtain ⟨rfl, hw⟩ := c4
+          have hne : w ≠ .scalars 2 := fun h => by rw [h22 h] at hw; cases hw
+          simp [hs, hw, hne, ← h3]
+        · simp only [c1, c2, c3, c4, ↓reduceIte, reduceCtorEq, false_iff]
+          constructor <;> (intro h; first | exact h.2.elim | exact h.elim | exact c4 ⟨h.2.1, h3.mpr h.2.2⟩ | exact c3 ⟨h.2.1, h.2.2⟩)
+
+/-- The recorded observation F6: an outer struct that contains a `DiplomatOption` has the "memory" scalar count,
+    for which the decision is *not* to force padding, although such a struct is certainly not passed as two scalars. -/
+example : forcePadding (.scalars 2) .memory true = .noForce := by decide
+
+example : jsFrags [.struct [.scalar 1 1, .scalar 4 4], .scalar 2 2, .opt (.scalar 2 2)] false
+    = some ["this.#f0)._intoFFI(functionCleanupArena, {})",
+            "diplomatRuntime.optionToArgsForCalling(this.#f2, 2, 2,",
+            "/* [1 x i16] padding */",
+            "diplomatRuntime.writeOptionToArrayBuffer(arrayBuffer, offset + 10, this.#f2, 2, 2,",
+            "diplomatRuntime.readOption(wasm, f2Deref, 2,"] := by decide
+
 end DiplomatModel.Props.C08
